@@ -676,6 +676,7 @@ type c07Plan struct {
 	UpDownMs  []int         `json:"up_down_ms"` // alternating durations, starting with the initial state
 	Lines     int           `json:"lines"`
 	GapUs     []int         `json:"gap_us_choices"`
+	Bursts    [][2]int      `json:"bursts"` // (lines, pause afterwards in ms); empty = steady traffic
 	Reset     bool          `json:"reset_on_down"`
 	ReadUs    int           `json:"endpoint_read_delay_us"`
 }
@@ -693,7 +694,7 @@ func scenC07(x *Exec) {
 	}
 	d := defaultDestCfg("10.1.1.1:2003")
 	d.Spool = true
-	d.FlushMs = []int{100, 1, 1000, 5000}[g.Pick(4)]
+	d.FlushMs = []int{100, 1, 1000, 5000, 3000, 7000}[g.Pick(6)]
 	d.ReconnMs = []int{1000, 100, 5000}[g.Pick(3)]
 	d.ConnBuf = []int{1000, 10, 30000}[g.Pick(3)]
 	d.IOBuf = []int{4096, 64, 65536}[g.Pick(3)]
@@ -711,13 +712,25 @@ func scenC07(x *Exec) {
 	p.StartDown = g.Bool(0.3)
 	ntr := 1 + g.Intn(5)
 	for i := 0; i < ntr; i++ {
-		p.UpDownMs = append(p.UpDownMs, []int{500, 5, 50, 2500, 12000, 25000}[g.Pick(6)])
+		p.UpDownMs = append(p.UpDownMs, []int{500, 5, 50, 2500, 12000, 25000, 10400, 11000, 21000, 800}[g.Pick(10)])
 	}
 	p.Lines = 50 + g.Intn(400)
 	if x.Case.Tier == "thorough" && g.Bool(0.2) {
 		p.Lines = 500 + g.Intn(2500)
 	}
 	p.GapUs = [][]int{{0, 100, 1000}, {1000, 10000, 50000}, {0}, {100000, 1000}}[g.Pick(4)]
+	if g.Bool(0.5) {
+		// bursty traffic: places bursts freely relative to flush ticks, keep-safe rotation and outages
+		left := p.Lines
+		for left > 0 {
+			n := 1 + g.Intn(60)
+			if n > left {
+				n = left
+			}
+			left -= n
+			p.Bursts = append(p.Bursts, [2]int{n, []int{100, 300, 1000, 700, 3000, 9000, 2500}[g.Pick(7)]})
+		}
+	}
 	p.Reset = g.Bool(0.4)
 	p.ReadUs = []int{0, 0, 100, 500}[g.Pick(4)]
 	x.Out.Sample = p
@@ -774,19 +787,37 @@ func scenC07(x *Exec) {
 			cond.Broadcast()
 		})
 		var handed [][]byte
+		burstIdx, burstLeft := 0, 0
+		if len(p.Bursts) > 0 {
+			burstLeft = p.Bursts[0][0]
+		}
 		for i := 0; i < p.Lines; i++ {
 			l := mkLine("c07", i, 25+g.Intn(70), g)
 			handed = append(handed, l)
 			dest.In <- l
 			simrt.Yield("handoff")
+			if len(p.Bursts) > 0 {
+				burstLeft--
+				if burstLeft <= 0 {
+					simrt.Sleep(time.Duration(p.Bursts[burstIdx][1]) * time.Millisecond)
+					burstIdx++
+					if burstIdx < len(p.Bursts) {
+						burstLeft = p.Bursts[burstIdx][0]
+					}
+				}
+				continue
+			}
 			if gap := p.GapUs[g.Pick(len(p.GapUs))]; gap > 0 {
 				simrt.Sleep(time.Duration(gap) * time.Microsecond)
 			}
 		}
 		cond.Wait(func() bool { return schedDone }, time.Time{})
-		// the endpoint stays up from now on: the backlog must drain completely
-		per := time.Duration(d.SpoolSleepUs+d.UnspoolSleepUs)*time.Microsecond + time.Millisecond
-		maxWait := 2*time.Minute + 10*time.Duration(d.ReconnMs+d.FlushMs)*time.Millisecond + 5*time.Duration(len(handed))*per
+		// the endpoint stays up from now on: the backlog must drain completely.  No fixed time bound is
+		// imposed (unspooling pauses for up to two reconnect periods after every slow-connection drop):
+		// the wait continues for as long as anything still moves, and gives up only after a window
+		// without any progress (or a very generous absolute cap).
+		window := 4*time.Duration(d.ReconnMs+d.FlushMs)*time.Millisecond + 45*time.Second
+		maxWait := 8 * time.Hour
 		dl := time.Now().Add(maxWait)
 		recvSet := func() (map[string]int, int, string) {
 			seen := map[string]int{}
@@ -806,6 +837,8 @@ func scenC07(x *Exec) {
 		var seen map[string]int
 		var total int
 		calm := 0
+		lastSig := ""
+		lastChange := time.Now()
 		for {
 			seen, total, _ = recvSet()
 			missing := 0
@@ -814,6 +847,10 @@ func scenC07(x *Exec) {
 					missing++
 				}
 			}
+			sig := fmt.Sprintf("%d/%d/%d/%d", total, missing, dest.VerifSpoolDepth(), drops())
+			if sig != lastSig {
+				lastSig, lastChange = sig, time.Now()
+			}
 			// done when everything arrived and the spool has stayed empty for a while
 			// (a redo batch may still be trickling into the spool)
 			if missing == 0 && dest.VerifSpoolDepth() == 0 {
@@ -821,7 +858,7 @@ func scenC07(x *Exec) {
 			} else {
 				calm = 0
 			}
-			if calm >= 30 || !time.Now().Before(dl) {
+			if calm >= 30 || !time.Now().Before(dl) || time.Since(lastChange) > window {
 				break
 			}
 			simrt.Sleep(500 * time.Millisecond)
@@ -864,12 +901,19 @@ func scenC07(x *Exec) {
 					idx = i
 				}
 			}
-			s.Fail(prop+":lost", "%d of %d handed-off lines were never received but slow_conn+slow_spool count only %d; first missing: hand-off #%d %s (spool depth %d, %d connections, waited %v after the last outage)",
-				len(missing), len(handed), dr, idx, Short(missing[0]), dest.VerifSpoolDepth(), len(ep.Conns), maxWait)
+			var idxs []int
+			for i, l := range handed {
+				if seen[string(l)] == 0 {
+					idxs = append(idxs, i)
+				}
+			}
+			s.Logf("missing hand-off indexes: %v", idxs)
+			s.Fail(prop+":lost", "%d of %d handed-off lines were never received but slow_conn+slow_spool count only %d; first missing: hand-off #%d %s (spool depth %d, %d connections, no progress for %v)",
+				len(missing), len(handed), dr, idx, Short(missing[0]), dest.VerifSpoolDepth(), len(ep.Conns), window)
 			return
 		}
 		if depth := dest.VerifSpoolDepth(); depth != 0 {
-			s.Fail(prop+":backlog", "the endpoint has been up for %v but the spool still holds %d lines", maxWait, depth)
+			s.Fail(prop+":backlog", "the endpoint stays up, nothing has moved for %v, but the spool still holds %d lines", window, depth)
 			return
 		}
 		x.Out.Nontrivial = len(ep.Conns) >= 1 && total >= 10
